@@ -519,3 +519,101 @@ Proof.
     + destruct pr; reflexivity.
     + exists 7, 0. repeat split; reflexivity.
 Qed.
+
+(* ================= ATASCII ================= *)
+Definition ata_char (ch : N) : bool := (ch <? 128) && negb (memN ch [27; 28; 29; 30; 31; 125; 126; 127]).
+Definition ata_dom (c : cell) : Prop := ata_char (cch c) = true.
+Definition inverse_video (c : cell) : bool := 0 <? background_color (cat c).
+Definition ata_rel (c' c : cell) : Prop := cch c' = cch c /\ inverse_video c' = inverse_video c.
+Definition ata_R (ws : unit) (ps : bool) (a : TextAttribute) : Prop := ps = false /\ agood a.
+
+Lemma ata_char_prop ch : ata_char ch = true ->
+  ch < 128 /\ ch <> 27 /\ ch <> 28 /\ ch <> 29 /\ ch <> 30 /\ ch <> 31 /\ ch <> 125 /\ ch <> 126 /\ ch <> 127.
+Proof.
+  unfold ata_char, memN. cbn [existsb]. intro H. apply andb_prop in H as (H1 & H2). apply N.ltb_lt in H1.
+  apply negb_true_iff in H2. repeat (apply orb_false_elim in H2 as (?E & H2)).
+  repeat match goal with E : (_ =? _) = false |- _ => apply N.eqb_neq in E end. repeat split; assumption.
+Qed.
+
+Ltac kill_eqb :=
+  repeat match goal with
+         | |- context [N.eqb ?a ?b] => destruct (N.eqb_spec a b) as [?E|?E]; [exfalso; lia|]
+         end.
+
+Lemma agood_ata a inv : agood a -> agood (ata_attr a inv).
+Proof. intros (A & B). destruct inv; split; assumption. Qed.
+
+Lemma ata_cell_sync w : cell_sync w bool unit ata_astep (ata_bstep w) ata_R ata_rel ata_emit ata_dom.
+Proof.
+  intros ws ps p c bs ws' (Hps & Hag) Hd Hem. subst ps.
+  destruct (ata_char_prop _ Hd) as (H128 & N1 & N2 & N3 & N4 & N5 & N6 & N7 & N8).
+  assert (Hm : cch c mod 256 = cch c) by (apply N.mod_small; lia).
+  unfold ata_emit, ATA_INVERSE, ATA_ESCAPED, memN in Hem. cbn [existsb] in Hem. rewrite Hm in Hem.
+  destruct (0 <? background_color (cat c)) eqn:Einv.
+  - replace (256 <=? cch c + 128) with false in Hem by (symmetry; apply N.leb_gt; lia). cbn [andb] in Hem.
+    assert (Hno : ((cch c + 128 =? 27) || ((cch c + 128 =? 28) || ((cch c + 128 =? 29) || ((cch c + 128 =? 30) ||
+                   ((cch c + 128 =? 31) || ((cch c + 128 =? 125) || ((cch c + 128 =? 126) || ((cch c + 128 =? 127) || false)))))))) = false).
+    { kill_eqb. reflexivity. }
+    rewrite Hno in Hem. cbn [app] in Hem. inversion Hem; subst bs ws'; clear Hem.
+    exists false, (mkCell (cch c) (ata_attr (pattr p) true)). split; [|split; [|split]].
+    + cbn [run]. unfold step, ata_astep, ata_bstep.
+      assert (Hmm : (cch c + 128) mod 65536 = cch c + 128) by (apply N.mod_small; lia). rewrite Hmm.
+      replace (127 <? cch c + 128) with true by (symmetry; apply N.ltb_lt; lia).
+      replace (cch c + 128 - 128) with (cch c) by lia.
+      kill_eqb. reflexivity.
+    + split; [reflexivity|]. apply agood_ata, Hag.
+    + split; [reflexivity|]. unfold inverse_video. cbn [cat ata_attr with_bg with_fg background_color]. rewrite Einv. reflexivity.
+    + apply agood_cell, agood_ata, Hag.
+  - cbn [andb] in Hem.
+    assert (Hno : ((cch c =? 27) || ((cch c =? 28) || ((cch c =? 29) || ((cch c =? 30) ||
+                   ((cch c =? 31) || ((cch c =? 125) || ((cch c =? 126) || ((cch c =? 127) || false)))))))) = false).
+    { kill_eqb. reflexivity. }
+    rewrite Hno in Hem. cbn [app] in Hem. inversion Hem; subst bs ws'; clear Hem.
+    exists false, (mkCell (cch c) (ata_attr (pattr p) false)). split; [|split; [|split]].
+    + cbn [run]. unfold step, ata_astep, ata_bstep.
+      assert (Hmm : cch c mod 65536 = cch c) by (apply N.mod_small; lia). rewrite Hmm.
+      replace (127 <? cch c) with false by (symmetry; apply N.ltb_ge; lia).
+      kill_eqb. reflexivity.
+    + split; [reflexivity|]. apply agood_ata, Hag.
+    + split; [reflexivity|]. unfold inverse_video. cbn [cat ata_attr with_bg with_fg background_color]. rewrite Einv. reflexivity.
+    + apply agood_cell, agood_ata, Hag.
+Qed.
+
+Lemma ata_eol_sync w : eol_sync bool unit ata_astep (ata_bstep w) [ATA_EOL] ata_R.
+Proof. intros ws ps p (Hps & _). subst ps. reflexivity. Qed.
+
+Lemma ata_total ws c : ata_dom c -> exists r, ata_emit ws c = Some r.
+Proof.
+  intro Hd. destruct (ata_char_prop _ Hd) as (H128 & _).
+  assert (Hm : cch c mod 256 = cch c) by (apply N.mod_small; lia).
+  unfold ata_emit, ATA_INVERSE. rewrite Hm.
+  replace (256 <=? cch c + 128) with false by (symmetry; apply N.leb_gt; lia). rewrite andb_false_r. eauto.
+Qed.
+
+Lemma ata_page0_view x y : view (lines ata_page0) x y = None.
+Proof.
+  unfold ata_page0. cbn [lines]. unfold view. rewrite nth_error_repeat.
+  destruct (y <? LOAD_H_ata)%nat; [|reflexivity]. rewrite nth_error_repeat.
+  destruct (x <? LOAD_W_ata)%nat; reflexivity.
+Qed.
+
+Theorem ata_roundtrip_proof : forall pr b,
+  dom_rows 40 ata_dom b -> nonempty_last 40 b ->
+  exists bytes, write ATA pr 40 b = WOk bytes /\
+    (sauce_gate bytes = false ->
+     exists q, load ATA bytes = Loaded q /\ (length b <= lh q)%nat /\ cells_ok 40 ata_rel b q).
+Proof.
+  intros pr b Hd Hl.
+  destruct (rows_loop_total _ (cellwise _ ata_emit 40) [ATA_EOL] 40 _
+              (cellwise_total _ ata_emit ata_dom 40 ata_total) b (length b) tt 0%nat Hd) as (body & Hbody).
+  exists (prep_bytes ATA pr ++ body). split.
+  - unfold write, write_body. rewrite Hbody. reflexivity.
+  - intros Hs. unfold load. rewrite Hs.
+    assert (Hp : prep_bytes ATA pr = []) by (destruct pr; reflexivity). rewrite Hp in *. cbn [app].
+    unfold parse. change (load_width ATA) with 40%nat.
+    destruct (assemble_page 40 ltac:(lia) _ _ ata_astep (ata_bstep 40) (cellwise _ ata_emit 40) [ATA_EOL] ata_R _ ata_rel
+              (cellwise_row_sync 40 _ _ ata_astep (ata_bstep 40) ata_R ata_rel ata_emit ata_dom (ata_cell_sync 40))
+              (ata_eol_sync 40) false tt ata_page0 b body eq_refl eq_refl ata_page0_view
+              (conj eq_refl default_agood) Hd Hl Hbody) as (ps' & q & Hrun & Hlh & Hcells).
+    rewrite Hrun. exists q. auto.
+Qed.
